@@ -2,6 +2,7 @@ package sx
 
 import (
 	"fmt"
+	"runtime/debug"
 	"go/types"
 
 	"gosx/smt"
@@ -24,6 +25,7 @@ type gor struct {
 	name    string
 	held    map[*Obj]bool // mutexes held (lock-set analysis)
 	exited  chan struct{}
+	quiescing bool
 }
 
 type sendReq struct {
@@ -48,8 +50,10 @@ type ChanObj struct {
 func (e *Engine) newChan(n int, t types.Type) *ChanObj {
 	e.nextObj++
 	var elem types.Type
-	if ct, ok := t.Underlying().(*types.Chan); ok {
-		elem = ct.Elem()
+	if t != nil {
+		if ct, ok := t.Underlying().(*types.Chan); ok {
+			elem = ct.Elem()
+		}
 	}
 	return &ChanObj{ID: e.nextObj, cap: n, elem: elem}
 }
@@ -80,7 +84,7 @@ func (e *Engine) spawn(fn Value, args []Value, c *ssa.CallCommon) {
 					e.addFinding("panic", "panic escaped goroutine "+g.name+" (process-fatal): "+x.msg, x.stack)
 					e.pendingAbort = &abortPath{kind: "stop"}
 				default:
-					e.pendingAbort = &abortPath{kind: "unsupported", msg: fmt.Sprintf("internal error in goroutine: %v", r)}
+					e.pendingAbort = &abortPath{kind: "unsupported", msg: fmt.Sprintf("internal error in goroutine: %v\n%s", r, debug.Stack())}
 				}
 				// wake main to abort the path
 				main := e.goroutines[0]
@@ -113,7 +117,7 @@ func (e *Engine) handoffFromDead(g *gor) {
 }
 
 func (e *Engine) runnable(g *gor) bool {
-	if g.done {
+	if g.done || g.quiescing {
 		return false
 	}
 	if g.blocked {
@@ -182,6 +186,10 @@ func (e *Engine) block(ready func() bool, what string) {
 			}
 			// nobody can run: deadlock from the point of view of `me`
 			e.onDeadlock(me)
+			if ready() {
+				break
+			}
+			continue
 		}
 		e.switchTo(next)
 		if ready() {
@@ -274,7 +282,9 @@ func (e *Engine) quiesce() {
 			return
 		}
 		me.blocked, me.ready, me.what = true, func() bool { return true }, "quiesce"
+		me.quiescing = true
 		e.switchTo(next)
+		me.quiescing = false
 		me.blocked, me.ready = false, nil
 	}
 }
@@ -304,8 +314,11 @@ func (e *Engine) killGoroutines() {
 		if g.exitedClosed() {
 			continue
 		}
-		g.resume <- struct{}{}
-		<-g.exited
+		select {
+		case g.resume <- struct{}{}:
+			<-g.exited
+		case <-g.exited:
+		}
 	}
 	e.killing = false
 	e.pendingAbort = nil
@@ -373,6 +386,9 @@ func (e *Engine) recvReady(ch *ChanObj) bool {
 		return false
 	}
 	if ch.timer {
+		if b, ok := e.extraCtx["timers"]; ok && b.(int) <= 0 {
+			return false
+		}
 		return !ch.fired
 	}
 	if len(ch.buf) > 0 || ch.closed {
@@ -389,6 +405,9 @@ func (e *Engine) recvReady(ch *ChanObj) bool {
 func (e *Engine) takeRecv(ch *ChanObj) (Value, bool) {
 	if ch.timer {
 		ch.fired = true
+		if b, ok := e.extraCtx["timers"]; ok {
+			e.extraCtx["timers"] = b.(int) - 1
+		}
 		e.clockAdvanceTo(ch.deadline)
 		return e.nowTimeValue(), true
 	}
@@ -486,7 +505,22 @@ func (e *Engine) selectOp(f *frame, x *ssa.Select) Value {
 		}
 		return r
 	}
-	// non-timer ready cases first; timers are "may fire" alternatives
+	// a timer fires only when no other case is ready (quiet period): drop timer cases
+	// from the ready set while a non-timer case is ready
+	allReady := readyIdx
+	readyIdx = func() []int {
+		r := allReady()
+		nonTimer := r[:0:0]
+		for _, i := range r {
+			if !states[i].ch.timer {
+				nonTimer = append(nonTimer, i)
+			}
+		}
+		if len(nonTimer) > 0 {
+			return nonTimer
+		}
+		return r
+	}
 	rdy := readyIdx()
 	onlyTimers := func(r []int) bool {
 		for _, i := range r {
